@@ -454,6 +454,7 @@ struct C15 : World {
     }
 
     // ---- the channel: apply faults, deliver to both demuxes
+    std::set<int> bp_unreadable;  // payload packets (global index) delivered to the demux with an uncorrectable block pointer byte
     int last_mag_owner[9]; for (int& x : last_mag_owner) x = -1;
     int cur_pfc_page = -1;  // page whose header was sent last
     // What the receiver can observe of the PFC continuity sequence: the page (index) whose header it accepted
@@ -548,6 +549,12 @@ struct C15 : World {
           ctx.count(std::string("fault_pfc_") + (f == 0 ? "none" : f == 1 ? "drop" : f == 3 ? "ham2" : "ham1"));
           if (f == 1) { ctx.log("pfc page %zu pkt %zu dropped", pg, k); sched.yield(); continue; }
           if (f == 3 || f == 4) corrupt_ham(p, 0, k == 0 ? 8 : 3, it->second.second, f == 3 ? 2 : 1);
+          // an uncorrectable block pointer (byte 2) in a packet the demultiplexer can tell is its own: "a packet failing its
+          // ... Hamming check is never delivered" - no block may contain bytes of this packet
+          if (f == 3 && k > 0 && it->second.second % 3 == 2) {
+            int gi = (int)k - 1; for (size_t q = 0; q < pg; q++) gi += pfc_pages[q].n;   // global index of the payload packet, as in PfcBlockSent
+            bp_unreadable.insert(gi); ctx.count("pfc_block_pointer_unreadable");
+          }
           if (f == 3) rx_lost();  // unreadable: the receiver knows it lost something
           else if (k == 0) { rx_hdr = (int)pg; rx_next = 1; rx_n = pfc_pages[pg].n; st.splice = false; }
           else if (rx_hdr >= 0) {
@@ -643,15 +650,20 @@ struct C15 : World {
       // deliveries to sent blocks ambiguous, so every alignment is tracked: cands = possible indices of the
       // next sent block not yet accounted for.
       auto must = [&](size_t q) { const PfcBlockSent& s = pfc_sent[q]; if (s.data.empty()) return false; for (int pg = s.first_page; pg <= s.last_page; pg++) if (page_damaged[(size_t)pg]) return false; return true; };
+      auto must_not = [&](size_t q) {
+        const PfcBlockSent& b = pfc_sent[q];
+        for (int u : bp_unreadable) if (u >= b.first_pkt && u <= b.last_pkt) return true;
+        return false;
+      };
       std::set<size_t> cands = {0};
       for (size_t j = 0; j < st.pfc_got.size(); j++) {
         const PfcGot& gd = st.pfc_got[j];
         if (gd.pgno != pgno || gd.stream != stream) { ctx.fail("oracle:pfc-foreign", "block of page %x stream %u delivered", gd.pgno, gd.stream); break; }
         if (gd.size_field > 2047) { ctx.fail("oracle:pfc-size", "block_size %u", gd.size_field); break; }
-        std::set<size_t> next; long blocker = -1;
+        std::set<size_t> next; long blocker = -1, hit_damaged = -1;
         for (size_t b : cands)
           for (size_t k = b; k < pfc_sent.size(); k++) {
-            if (pfc_sent[k].data == gd.data && pfc_sent[k].app == gd.app && gd.size_field == gd.data.size()) next.insert(k + 1);
+            if (pfc_sent[k].data == gd.data && pfc_sent[k].app == gd.app && gd.size_field == gd.data.size()) { if (must_not(k)) hit_damaged = (long)k; else next.insert(k + 1); }
             if (must(k)) { if (blocker < 0) blocker = (long)k; break; }  // an undamaged block cannot be skipped
           }
         if (gd.spliced) {
@@ -660,7 +672,10 @@ struct C15 : World {
           ctx.count("pfc_spliced_delivery_tolerated");
         }
         if (next.empty()) {
-          if (blocker >= 0) {
+          if (hit_damaged >= 0) {
+            const PfcBlockSent& s = pfc_sent[(size_t)hit_damaged];
+            ctx.fail("oracle:pfc-delivered-damaged", "delivered block %zu is sent block %ld (app %d size %zu, pages %d-%d packets %d-%d), part of which came in a packet with an uncorrectable block pointer byte", j, hit_damaged, s.app, s.data.size(), s.first_page, s.last_page, s.first_pkt, s.last_pkt);
+          } else if (blocker >= 0) {
             const PfcBlockSent& s = pfc_sent[(size_t)blocker];
             ctx.fail("oracle:pfc-delivery", "delivered block %zu (app %d size %zu) differs from the next undamaged block %ld (app %d size %zu, pages %d-%d)", j, gd.app, gd.data.size(), blocker, s.app, s.data.size(), s.first_page, s.last_page);
           } else
